@@ -266,9 +266,9 @@ func (p *Parser) Documents() []*Document {
 }
 
 // outputDocument returns the output objects generated by the specified
-// document.
-func (p *Parser) outputDocument(doc *Document) ([]any, error) {
-	docs, err := doc.Process(p.docs)
+// document. Evaluation modifies doc and may read from mergeFromDocs.
+func (p *Parser) outputDocument(doc *Document, mergeFromDocs []*Document) ([]any, error) {
+	docs, err := doc.Process(mergeFromDocs)
 	if err != nil {
 		return nil, err
 	}
@@ -311,8 +311,20 @@ func (p *Parser) outputDocument(doc *Document) ([]any, error) {
 func (p *Parser) OutputDocuments() ([]any, error) {
 	ret := []any{}
 
-	for _, doc := range p.docs {
-		outs, err := p.outputDocument(doc)
+	// Evaluation rewrites documents in place, so evaluate copies: output
+	// must not change the merged state that later merges and outputs see.
+	docs := make([]*Document, len(p.docs))
+
+	for i, doc := range p.docs {
+		docs[i] = &Document{
+			ID:      doc.ID,
+			Parents: doc.Parents,
+			Data:    copyTree(doc.Data),
+		}
+	}
+
+	for _, doc := range docs {
+		outs, err := p.outputDocument(doc, docs)
 		if err != nil {
 			return nil, err
 		}
